@@ -81,13 +81,28 @@ def gen_single_excitation(rng, kind, cls, axi, nonlinear=False):
             q["cond"] = cond
         p["holes"].append(dict(x=(bx0 + bx1) / 2, y=(by0 + by1) / 2))
     B.label(x0 + W * 0.125, y0 + H * 0.125, m1, maxarea=d)
+    main_label = p["labels"][-1]
+    # a block of the second material, off centre, inside a box of free space (the weighted-stress-tensor integrals accept only
+    # blocks surrounded by free space): field integrals, force and torque on it
+    if kind == "fee":
+        air = B.prop("blockprops", name="air", ex=1.0, ey=1.0, qv=0.0)
+    elif kind == "feh":
+        air = B.prop("blockprops", name="air", kx=0.5, ky=0.5, kt=0.0, qv=0.0)
+    else:
+        air = B.prop("blockprops", name="air", mu_x=1.0, mu_y=1.0)
+    ax0, ax1, ay0, ay1 = x0 + W * 0.7, x0 + W * 0.875, y0 + H * 0.125, y0 + H * 0.3125
+    B.rect(x0 + W * 0.65625, y0 + H * 0.0625, x0 + W * 0.9375, y0 + H * 0.40625)
+    B.label(x0 + W * 0.671875, y0 + H * 0.078125, air, maxarea=d / 2)
+    B.rect(ax0, ay0, ax1, ay1)
+    B.label((ax0 + ax1) / 2, (ay0 + ay1) / 2, m2, maxarea=d / 2)
+    p["bar"] = ((ax0 + ax1) / 2, (ay0 + ay1) / 2)
     p["features"] = [kind, cls, "axi" if axi else "planar"] + (["nonlinear"] if nonlinear else [])
     p["probe"] = [(x0 + W * 0.2, y0 + H * 0.3), (x0 + W * 0.8, y0 + H * 0.7), (x0 + W * 0.5, y0 + H * 0.15)]
     p["lab"] = (x0 + W * 0.125, y0 + H * 0.125)
     p["inner"] = ((bx0 + bx1) / 2, (by0 + by1) / 2)
     if axi and kind == "fem":
-        p["labels"][-1]["x"] = x0 + W * 0.75
-        p["lab"] = (x0 + W * 0.75, y0 + H * 0.125)
+        main_label["x"] = x0 + W * 0.5
+        p["lab"] = (x0 + W * 0.5, y0 + H * 0.125)
     return p
 
 
@@ -107,12 +122,15 @@ def exponents(kind, cls, query, axi=False):
         return [k + 1 if axi else k, k - 1, k - 1, 0, 2 * (k - 1), k - 1, k - 1, None, js, 0, 0, None, None, None]
     if query[0] == "block":
         t = query[2]
-        if kind == "fee":
-            return {0: [2 * (k - 1) + 3, None], 1: [2, None], 2: [3, None]}[t]
-        if kind == "feh":
-            return {0: [k, None], 1: [2, None], 2: [3, None]}[t]
-        # 0: int A.J dV, 1: int A dV, 2: energy, 5: area, 10: volume
-        return {0: [2 * (k - 1) + 3, None], 1: [k + 3, None], 2: [2 * (k - 1) + 3, None], 5: [2, None], 10: [3, None]}[t]
+        # force by the weighted stress tensor: stress ~ s^(2(k-1)), grad(weight) ~ 1/s, dV ~ s^3; torque has one more power
+        fo, tq = 2 * (k - 1) + 2, 2 * (k - 1) + 3
+        if kind == "fee":      # 3 / 4: averages of D / E over the volume; 5: force; 6: torque
+            return {0: [2 * (k - 1) + 3, None], 1: [2, None], 2: [3, None], 3: [k - 1, k - 1], 4: [k - 1, k - 1], 5: [fo, fo], 6: [tq]}[t]
+        if kind == "feh":      # 3 / 4: average F / G over the volume
+            return {0: [k, None], 1: [2, None], 2: [3, None], 3: [k - 1, k - 1], 4: [k - 1, k - 1]}[t]
+        # 0: int A.J dV, 1: int A dV, 2: energy, 5: area, 10: volume, 18 / 19: force x / y, 22: torque (weighted stress tensor)
+        return {0: [2 * (k - 1) + 3, None], 1: [k + 3, None], 2: [2 * (k - 1) + 3, None], 5: [2, None], 10: [3, None],
+                18: [fo], 19: [fo], 22: [tq]}[t]
     if query[0] == "cond":
         if kind == "fem":      # current, voltage drop, flux linkage
             return [0, None, k + 1]
@@ -151,6 +169,10 @@ def run_pair(ctx, k, p, u1, u2):
     queries = [("nodes",)] + [("point", x, y) for (x, y) in p["probe"]] + [("block", [p["lab"]], t) for t in blocks] + [("cond", "cond")]
     if kind == "fem":
         queries += [("block", [p["inner"]], t) for t in (0, 1, 2)]
+    # volume integrals of the field, force and torque (weighted stress tensor) on the inner block
+    axi = p.get("problemtype") == "axisymmetric"
+    more = {"fee": [3, 4, 5] + ([] if axi else [6]), "feh": [3, 4], "fem": [19] + ([] if axi else [18, 22])}[kind]
+    queries += [("block", [p["bar"]], t) for t in more]
     out = []
     for tagu, u in (("a", u1), ("b", u2)):
         q = copy.deepcopy(p); q["units"] = u
